@@ -400,6 +400,14 @@ def run_impl(case):
                 s["ptype"] = getattr(mp, s["ptype"])
             if mode == "and":
                 handles = [coupler.and_(*[h[0] for h in mh], **s)]
+                # the same penalty object named twice is two terms of the sum
+                try:
+                    m0 = mh[0][0]
+                    twin = lambda x, _p=m0: _p(x)       # another object with the same values
+                    one, two = coupler.and_(m0, twin, **s), coupler.and_(m0, m0, **s)
+                    out["and_dup"] = [[_call(one, list(p)), _call(two, list(p))] for p in points]
+                except Exception as e:
+                    out["and_dup_error"] = type(e).__name__
             elif mode == "or":
                 handles = [coupler.or_(*[h[0] for h in mh], **s)]
             else:
@@ -650,6 +658,11 @@ def oracle(case, obs):
         return [_fail("no-crash", "penalty", obs["__exception__"], obs.get("__msg__"))]
     points = case["points"]
     mode = case["mode"]
+    for pair in obs.get("and_dup", []):
+        a, b = pair
+        if _isnum(a) and _isnum(b) and math.isfinite(a) and math.isfinite(b) and not _close(b, a):
+            out.append(_fail("stacked_penalties_add", "coupler.and_", "repeated-member-not-counted-twice", dict(with_twin=a, same_object_twice=b)))
+            break
     if mode == "as_penalty":
         x, cx = points[0], obs["cx"]
         rn = math.sqrt(sum((a - b) ** 2 for a, b in zip(cx, x)))
